@@ -445,3 +445,113 @@ def assigned_names(fn) -> dict[str, list]:
         if isinstance(n, ast.comprehension):
             add(n.target, enclosing_stmt(n))
     return out
+
+
+# ---------------------------------------------------------------------- reachability formulas
+def _falls_through(stmts):
+    """Formula for 'control reaches the end of this block' (structured code)."""
+    parts = []
+    for st in stmts:
+        f = _ft_stmt(st)
+        if f is True:
+            continue
+        parts.append(f)
+        if f is False:
+            break
+    if not parts:
+        return True
+    if any(p is False for p in parts):
+        return False
+    return ("and", parts)
+
+
+def _ft_stmt(st):
+    if isinstance(st, (ast.Continue, ast.Break, ast.Return, ast.Raise)):
+        return False
+    if isinstance(st, ast.If):
+        a = _falls_through(st.body)
+        b = _falls_through(st.orelse)
+        if a is True and b is True:
+            return True
+        t = ("atom", st.test)
+        return ("or", [("and", [t, a]), ("and", [("not", t), b])])
+    if isinstance(st, ast.Try):
+        # conservatively: may fall through
+        return True
+    return True
+
+
+def reach_formula(stmt, root):
+    """Formula (over the tests of enclosing/preceding ifs) under which `stmt` is reached from the start of `root`'s
+    body in one pass (loops: one iteration of the innermost enclosing loop when root is that loop)."""
+    conj = []
+    child = stmt
+    p = parent(stmt)
+    while p is not None:
+        for field in ("body", "orelse", "finalbody"):
+            block = getattr(p, field, None)
+            if isinstance(block, list) and child in block:
+                idx = block.index(child)
+                pre = _falls_through(block[:idx])
+                if pre is not True:
+                    conj.append(pre)
+                if isinstance(p, ast.If):
+                    t = ("atom", p.test)
+                    conj.append(t if field == "body" else ("not", t))
+                elif isinstance(p, ast.While) and field == "body":
+                    conj.append(("atom", p.test))
+        if isinstance(p, ast.ExceptHandler):
+            pass
+        if p is root:
+            break
+        child = p
+        p = parent(p)
+    return ("and", conj) if conj else True
+
+
+def formula_atoms(f, out=None):
+    out = {} if out is None else out
+    if isinstance(f, tuple):
+        if f[0] == "atom":
+            _split_atoms(f[1], out)
+        elif f[0] == "not":
+            formula_atoms(f[1], out)
+        else:
+            for x in f[1]:
+                formula_atoms(x, out)
+    return out
+
+
+def _split_atoms(test, out):
+    if isinstance(test, ast.BoolOp):
+        for v in test.values:
+            _split_atoms(v, out)
+    elif isinstance(test, ast.UnaryOp) and isinstance(test.op, ast.Not):
+        _split_atoms(test.operand, out)
+    else:
+        out.setdefault(U(test), test)
+
+
+def eval_formula(f, assign):
+    """assign: dict atom-text -> bool."""
+    if f is True or f is False:
+        return f
+    kind = f[0]
+    if kind == "atom":
+        return _eval_test(f[1], assign)
+    if kind == "not":
+        return not eval_formula(f[1], assign)
+    if kind == "and":
+        return all(eval_formula(x, assign) for x in f[1])
+    if kind == "or":
+        return any(eval_formula(x, assign) for x in f[1])
+    raise AnalysisError(f"bad formula node {kind}")
+
+
+def _eval_test(test, assign):
+    if isinstance(test, ast.BoolOp):
+        vals = [_eval_test(v, assign) for v in test.values]
+        return all(vals) if isinstance(test.op, ast.And) else any(vals)
+    if isinstance(test, ast.UnaryOp) and isinstance(test.op, ast.Not):
+        return not _eval_test(test.operand, assign)
+    return assign[U(test)]
